@@ -33,7 +33,9 @@ RULE = (
     "simulated current schema from add/remove/select/rename/update_column(s)/set_index/reset_index with ~12% "
     "invalid requests and ~30% immediately followed by their inverse. 35% of programs use the 'plain' profile that "
     "avoids the features of the recorded known findings. Non-trivial: >=2 valid requests executed, or a touched/"
-    "moved component carrying >=3 non-default attributes. Distinct = hash of the canonical JSON case."
+    "moved component carrying >=3 non-default attributes. Family component_update_checks: one generated Column/Index "
+    "(pandas) or Column (polars) + a new check list through update_checks/set_checks (non-trivial: >=3 non-default "
+    "attributes). Distinct = hash of the canonical JSON case."
 )
 ASSUMPTIONS = [
     "expected result of each request = constructors applied to the model's spec (harness/props/_c15_model.py, from the "
@@ -745,16 +747,6 @@ def strat_polars():
     return programs("polars")
 
 
-FAMILIES = [
-    Family("pandas_programs", evaluate, strategy=strat_pandas, n_quick=200, n_thorough=3000, shards_quick=6,
-           shards_thorough=16,
-           required_labels=["op=add_columns", "op=remove_columns", "op=select_columns", "op=rename_columns",
-                            "op=update_column", "op=update_columns", "op=set_index", "op=reset_index",
-                            "index=multi3", "converse-tracked", "state-revisit", "profile=plain"]),
-    Family("polars_programs", evaluate, strategy=strat_polars, n_quick=120, n_thorough=1500, shards_quick=2,
-           shards_thorough=8,
-           required_labels=["op=add_columns", "op=rename_columns", "op=update_columns", "converse-tracked"]),
-]
 
 
 # ============================================================ known findings
@@ -886,3 +878,87 @@ def _k_rename_unique(family, case, disc):
     if what == "rejected-frame-accepted-after":
         return (d.get("breaker") or {}).get("kind") == "joint_dup"
     return False
+
+
+# ===================================================== family: component update_checks / set_checks
+
+
+@st.composite
+def comp_cases(draw):
+    backend = draw(st.sampled_from(["pandas", "pandas", "polars"]))
+    kind = draw(st.sampled_from(["column", "index"])) if backend == "pandas" else "column"
+    comp = draw(_component("ca", 0, 0.5, backend, kind == "column", False))
+    new = draw(st.lists(st.sampled_from(M.checks_for(comp["dtype"], backend)), max_size=2, unique=True))
+    return {"backend": backend, "kind": kind, "comp": comp, "new_checks": new,
+            "method": draw(st.sampled_from(["update_checks", "set_checks"]))}
+
+
+def evaluate_component(case):
+    """ComponentSchema.update_checks/set_checks: a new component with the given checks, every other attribute
+    kept, receiver untouched (the copy is shallow by design: sharing of the other attributes is not flagged)."""
+    ev = Eval()
+    backend, kind, comp = case["backend"], case["kind"], case["comp"]
+    _warmup(backend)
+    ev.labels += [f"component={backend}.{kind}", "method=" + case["method"]]
+    ev.nontrivial = _nondefault(comp) >= 3
+    build = (lambda c: M.build_column(c, backend)) if kind == "column" else M.build_index_level
+    obj = build(comp)
+    before = fp.fp_json(obj)
+    m = case["method"]
+    try:
+        R = getattr(obj, m)([M.mk_check(c) for c in case["new_checks"]])
+    except Exception as e:  # noqa: BLE001
+        ev.add(f"{m}:raised", {"type": type(e).__name__, "msg": str(e)[:200]})
+        return ev
+    if fp.fp_json(obj) != before:
+        ev.add(f"{m}:receiver-mutated", {"diff": fp.fp_diff(json.loads(before), json.loads(fp.fp_json(obj)))})
+    if R is obj:
+        ev.add(f"{m}:returned-receiver", None)
+    if type(R) is not type(obj):
+        ev.add(f"{m}:result-type", {"expected": type(obj).__name__, "observed": type(R).__name__})
+        return ev
+    exp = dict(comp)
+    exp["checks"] = list(case["new_checks"])
+    E = build(exp)
+    diffs = []
+    _cmp_attrs(diffs, kind, R, E, M.COL_ATTRS if kind == "column" else M.IDX_ATTRS)
+    for path, detail in diffs:
+        ev.add(f"{m}:{path}", detail)
+    if not diffs:
+        fo, fe = fp.fp_json(R), fp.fp_json(E)
+        if fo != fe:
+            ev.add(f"{m}:fingerprint-differs", {"diff": fp.fp_diff(json.loads(fe), json.loads(fo))})
+        else:
+            try:
+                eq = (R == E)
+            except Exception as e:  # noqa: BLE001
+                eq = type(e).__name__
+            if eq is not True:
+                ev.add(f"{m}:eq-false-on-structurally-equal", {"eq": repr(eq)})
+    return ev
+
+
+FAMILIES = [
+    Family("pandas_programs", evaluate, strategy=strat_pandas, n_quick=200, n_thorough=3000, shards_quick=6,
+           shards_thorough=16,
+           required_labels=["op=add_columns", "op=remove_columns", "op=select_columns", "op=rename_columns",
+                            "op=update_column", "op=update_columns", "op=set_index", "op=reset_index",
+                            "index=multi3", "converse-tracked", "state-revisit", "profile=plain"]),
+    Family("polars_programs", evaluate, strategy=strat_polars, n_quick=120, n_thorough=1500, shards_quick=2,
+           shards_thorough=8,
+           required_labels=["op=add_columns", "op=rename_columns", "op=update_columns", "converse-tracked"]),
+    Family("component_update_checks", evaluate_component, strategy=comp_cases, n_quick=150, n_thorough=1500,
+           shards_quick=1, shards_thorough=2,
+           required_labels=["component=pandas.column", "component=pandas.index", "component=polars.column"]),
+]
+
+
+@known.finding("C15/update-checks-shares-dict")
+def _k_update_checks(family, case, disc):
+    if family != "component_update_checks" or disc.kind not in ("update_checks:receiver-mutated",
+                                                               "set_checks:receiver-mutated"):
+        return False
+    d = disc.detail if isinstance(disc.detail, dict) else {}
+    paths = [x.get("path", "") for x in d.get("diff", [])]
+    # trigger: the new checks differ from the receiver's; symptom: only the receiver's checks changed
+    return case["new_checks"] != case["comp"]["checks"] and bool(paths) and all(p.startswith(".checks") for p in paths)
